@@ -637,12 +637,12 @@ theorem rev_append_drops_once (env : Env) (v other : Vec) (hv : v.RWF) (ho : oth
     panics inside `Splice::drop`, when the range check panics, and when `Splice::drop` unwinds out of
     `reserve` / `move_tail` / `from_iter_in` with "capacity overflow" (`Drain::drop` then restores the tail, and
     `replace_with` is dropped with what it still owns) -/
-theorem splice_drops_once (env : Env) (hk : env.kind = .bump) (v : Vec) (start end_ : Nat) (src : List Id) (hint : Nat)
+theorem splice_drops_once (env : Env) (hk : env.kind = .bump) (hm : env.maxCap = none) (v : Vec) (start end_ : Nat) (src : List Id) (hint : Nat)
     (lie : Option Nat) (maxCap : Nat)
     (script : List Pull) (hv : v.WF) (hfresh : (v.total ++ src).Nodup) :
     DropsOnce (splice env v start end_ src hint lie maxCap script) v src := by
   have ⟨hs, hl⟩ := hv.slots_eq
-  obtain ⟨v', e, h, hc⟩ := splice_holds env hk v v.abs start end_ src hint lie maxCap script hs hl
+  obtain ⟨v', e, h, hc⟩ := splice_holds env hk hm v v.abs start end_ src hint lie maxCap script hs hl
   have ⟨g, gc⟩ := growTo_grows hs hl v'.cap
   have hcap' : (growTo v v'.cap).cap = v'.cap := by rw [gc]; omega
   generalize capsOf env v hint lie maxCap = c at *
@@ -663,7 +663,7 @@ theorem splice_drops_once (env : Env) (hk : env.kind = .bump) (v : Vec) (start e
 
 /-- what the vector holds after a splice that unwound with "capacity overflow" (no panicking destructor):
     the head, the items written before the panic, the untouched tail — nothing lost, nothing twice -/
-theorem splice_overflow_contents (env : Env) (hk : env.kind = .bump) (v : Vec) (start end_ : Nat) (src : List Id) (hint : Nat)
+theorem splice_overflow_contents (env : Env) (hk : env.kind = .bump) (hm : env.maxCap = none) (v : Vec) (start end_ : Nat) (src : List Id) (hint : Nat)
     (lie : Option Nat) (maxCap : Nat) (script : List Pull) (hv : v.WF) (hr : start ≤ end_ ∧ end_ ≤ v.len)
     (hb : (pullsSpec ((v.abs.take end_).drop start) script).2.any env.bombs.contains = false) :
     ∃ r, splice env v start end_ src hint lie maxCap script = .ok r ∧
@@ -672,7 +672,7 @@ theorem splice_overflow_contents (env : Env) (hk : env.kind = .bump) (v : Vec) (
         src.drop (spliceWritten (capsOf env v hint lie maxCap) start end_ v.len src).1.length) ∧
       (r.exit = .panic false ↔ (spliceWritten (capsOf env v hint lie maxCap) start end_ v.len src).2 = true) := by
   have ⟨hs, hl⟩ := hv.slots_eq
-  obtain ⟨v', e, h, hc⟩ := splice_holds env hk v v.abs start end_ src hint lie maxCap script hs hl
+  obtain ⟨v', e, h, hc⟩ := splice_holds env hk hm v v.abs start end_ src hint lie maxCap script hs hl
   have hr' : ¬ (start > end_ ∨ end_ > v.abs.length) := by omega
   have habs : v'.abs = _ := Vec.WF.abs_eq h.slots h.len
   generalize capsOf env v hint lie maxCap = c at *
@@ -720,11 +720,11 @@ example : splice { kind := .bump } (Vec.mk' [1, 2, 3, 4] 0) 1 2 [10, 11, 12] 100
 /-- `Extend::extend(iter)` on a `BumpVec`, for every `size_hint` behaviour of the source (lying included): every
     old value and every item of the source is accounted for exactly once — pushed, or (when the reservation for
     the claimed length overflows) dropped with the source -/
-theorem extend_drops_once (env : Env) (hk : env.kind = .bump) (v : Vec) (src : List Id) (hint : Nat)
+theorem extend_drops_once (env : Env) (hk : env.kind = .bump) (hm : env.maxCap = none) (v : Vec) (src : List Id) (hint : Nat)
     (lie : Option Nat) (maxCap : Nat) (hv : v.WF) (hfresh : (v.total ++ src).Nodup) :
     DropsOnce (extendIter env v src hint lie maxCap) v src := by
   have ⟨hs, hl⟩ := hv.slots_eq
-  have h := extendIter_bump env hk v v.abs src hint lie maxCap hs hl
+  have h := extendIter_bump env hk hm v v.abs src hint lie maxCap hs hl
   by_cases hov : capOverflow env maxCap v v.len (spliceLower hint lie src.length) = true
   · simp only [hov, ↓reduceIte] at h
     refine ⟨_, h, ⟨hv.1, ?_⟩, ?_⟩
